@@ -12,13 +12,22 @@
 //!                          Verdict: the loaded document is the plain document in the property's sense -- after the load
 //!                          itself when the empty password opens the file, after decrypt(PW) otherwise; when nothing was
 //!                          decrypted on load, what came back is the ENCRYPTED document in the property's sense.
+//!  (hist-prep <fmt> <doc> (rev <edit>...) ...) -> (histfile xBYTES) | (err C)   generator aid: the document saved, then one
+//!                          incremental update per (rev ..): IncrementalDocument::load_from the bytes so far, edit
+//!                          new_document (<edit> ::= (set (id gen) <obj>) | (add <obj>)), IncrementalDocument::save_to
+//!  (rt-hist <fmt> xFILE)   -> (rt-hist <loadres> <saveres> <loadres> <saveres2> <loadres2>)
+//!                          the property on a document OBTAINED BY LOADING: FILE has several cross-reference sections
+//!                          (incremental updates written by lopdf, or revisions appended by hand); it is loaded, and the
+//!                          loaded document goes through the same save -> load -> compare -> second cycle as an `rt` case.
+//!                          Verdict: `savable` on the loaded document's user objects (its own cross-reference streams apart,
+//!                          and whatever the loader left under Prev is NOT an excuse: it is part of the document under test).
 //!  <saveres> ::= (saved xBYTES <doc-after-save>) | (invalid-mark xBYTES) | (save-panic xBYTES)
 //!  <loadres> ::= (loaded <doc> table|stream) | (err <class>) | (load-panic)
 //! Verdict (save / rt): the direct evaluation of the property on the implementation for documents in
 //! the property's domain (`savable`, mirrored from coq/Spec/SaveSpec.v), `skip` outside of it.
 use lopdf::encryption::crypt_filters::*;
 use lopdf::xref::XrefType;
-use lopdf::{Dictionary, Document, EncryptionState, EncryptionVersion, Object, Permissions};
+use lopdf::{Dictionary, Document, EncryptionState, EncryptionVersion, IncrementalDocument, Object, Permissions};
 use std::collections::BTreeMap;
 use std::sync::Arc;
 use lvh::conv::*;
@@ -246,6 +255,19 @@ fn verdict(doc: &Document, stream: bool, c: &Cycle) -> String {
     if let Err(why) = savable(doc) {
         return format!("skip {}", why);
     }
+    verdict_in_domain(doc, stream, c)
+}
+
+/// the domain for a document that came out of load_mem: its cross-reference streams are bookkeeping (the writer drops
+/// them, `reloaded_same` leaves them out on both sides), and a Prev entry the loader left behind is not a reason to skip
+fn savable_loaded(doc: &Document) -> Result<(), String> {
+    let mut d = doc.clone();
+    d.trailer.remove(b"Prev");
+    d.objects.retain(|_, o| !is_xref_stream(o));
+    savable(&d)
+}
+
+fn verdict_in_domain(doc: &Document, stream: bool, c: &Cycle) -> String {
     if !matches!(c.save1, SaveRes::Saved(_)) {
         return "FAIL save of a savable document did not succeed".into();
     }
@@ -406,10 +428,98 @@ fn rt_enc(plain: &Document, enc: &Document, stream: bool, pw: &[u8]) -> (Sx, Str
     (Sx::tagged("rt-enc", parts), v)
 }
 
+// ---------- documents obtained by loading a file with several revisions ----------
+fn hist_prep(doc: &Document, stream: bool, revs: &[Sx]) -> Result<Vec<u8>, String> {
+    let mut d = doc.clone();
+    let mut bytes = match save(&mut d, stream) {
+        SaveRes::Saved(b) => b,
+        _ => return Err("save".into()),
+    };
+    for r in revs {
+        let mut inc = IncrementalDocument::load_from(&bytes[..]).map_err(|e| err_class(&e))?;
+        for e in r.args() {
+            let a = e.args();
+            match e.tag() {
+                Some("set") => {
+                    let id = a.first().and_then(oid_of_sx).ok_or("badcase")?;
+                    inc.new_document.set_object(id, a.get(1).and_then(obj_of_sx).ok_or("badcase")?);
+                }
+                Some("add") => {
+                    inc.new_document.add_object(a.first().and_then(obj_of_sx).ok_or("badcase")?);
+                }
+                _ => return Err("badcase".into()),
+            }
+        }
+        let mut out = Vec::new();
+        inc.save_to(&mut out).map_err(|_| "inc-save".to_string())?;
+        bytes = out;
+    }
+    Ok(bytes)
+}
+
+fn cycle_parts(c: &Cycle) -> Vec<Sx> {
+    let mut parts = vec![saveres_to_sx(&c.save1, &c.after1)];
+    if let Some(l1) = &c.load1 {
+        parts.push(loadres_to_sx(l1));
+    }
+    if let Some((s2, d2)) = &c.save2 {
+        parts.push(saveres_to_sx(s2, d2));
+    }
+    if let Some(l2) = &c.load2 {
+        parts.push(loadres_to_sx(l2));
+    }
+    parts
+}
+
 fn main() {
     lvh::drive(|x| {
         let a = x.args();
         match x.tag() {
+            Some("hist-prep") => {
+                if a.len() < 2 {
+                    return (Sx::id("badcase"), "skip".into());
+                }
+                let stream = a[0].is_id("stream");
+                let doc = match doc_of_sx(&a[1]) {
+                    Some(d) => d,
+                    None => return (Sx::id("badcase"), "skip".into()),
+                };
+                match hist_prep(&doc, stream, &a[2..]) {
+                    Ok(b) => (Sx::tagged("histfile", vec![Sx::bytes(&b)]), "ok".into()),
+                    Err(e) => (Sx::tagged("err", vec![Sx::id(&e)]), "ok".into()),
+                }
+            }
+            Some("rt-hist") => {
+                if a.len() != 2 {
+                    return (Sx::id("badcase"), "skip".into());
+                }
+                let stream = if a[0].is_id("stream") {
+                    true
+                } else if a[0].is_id("table") {
+                    false
+                } else {
+                    return (Sx::id("badcase"), "skip".into());
+                };
+                let file = match a[1].as_bytes() {
+                    Some(b) => b,
+                    None => return (Sx::id("badcase"), "skip".into()),
+                };
+                let l0 = load(&file);
+                let mut parts = vec![loadres_to_sx(&l0)];
+                let v = match &l0 {
+                    Ok(Ok(d0)) => {
+                        let c = cycle(d0, stream);
+                        parts.extend(cycle_parts(&c));
+                        match savable_loaded(d0) {
+                            Err(why) => format!("skip loaded document: {}", why),
+                            Ok(()) => verdict_in_domain(d0, stream, &c),
+                        }
+                    }
+                    // the property starts from an in-memory document: a file that does not load gives none
+                    _ => "skip the file does not load".into(),
+                };
+                (Sx::tagged("rt-hist", parts), v)
+            }
             Some("enc-prep") => {
                 if a.len() != 4 {
                     return (Sx::id("badcase"), "skip".into());
@@ -466,21 +576,10 @@ fn main() {
                 };
                 let c = cycle(&doc, stream);
                 let v = verdict(&doc, stream, &c);
-                let s1 = saveres_to_sx(&c.save1, &c.after1);
                 if t == "save" {
-                    return (s1, v);
+                    return (saveres_to_sx(&c.save1, &c.after1), v);
                 }
-                let mut parts = vec![s1];
-                if let Some(l1) = &c.load1 {
-                    parts.push(loadres_to_sx(l1));
-                }
-                if let Some((s2, d2)) = &c.save2 {
-                    parts.push(saveres_to_sx(s2, d2));
-                }
-                if let Some(l2) = &c.load2 {
-                    parts.push(loadres_to_sx(l2));
-                }
-                (Sx::tagged("rt", parts), v)
+                (Sx::tagged("rt", cycle_parts(&c)), v)
             }
             Some("load") => {
                 let b = match a.first().and_then(|b| b.as_bytes()) {
